@@ -1,5 +1,6 @@
 import MmtkModel.Model.FreeList
 import MmtkModel.Spec.Runs
+import MmtkModel.Lemmas.FreeListFree
 /-!
 # C26 — Free lists allocate disjoint runs and coalesce back completely
 
@@ -421,18 +422,273 @@ theorem getNext_setNext (t : Tab) (head u : Int) (next : Nat) (old : Nat)
   · cases hold
 
 /-!
-## Target of the concrete layer (not proved — named here so that the gap is explicit)
+## The concrete layer: the table refines `Mmtk.Runs`
 
-`theorem history_refines_partial` would be: for `WF t` (sentinels intact; every run's size / multi /
-free flags consistent at both ends; each head's list a well-formed circular doubly-linked list of
-exactly the runs `own = some k`), every concrete `alloc / allocFromUnit / free / setUncoalescable /
-clearUncoalescable` that the protocol allows returns `.ok`, its result is one of the answers
-`Runs.Pre` allows for `abs t`, `abs (t') = Runs.apply (abs t) op`, and `WF t'`; hence by induction
-every history of the concrete model is a history of `Mmtk.Runs` and inherits the theorems above.
-What ties the concrete model to the abstract one today is (i) the exact differential of the
-concrete model against both implementations (returned units, raw table dumps, sizes) and (ii) the
-abstract specification replayed as the oracle on the implementation's own answers.
+`Rel t a L` (`Lemmas/FreeListRel.lean`) is the table invariant together with the abstraction: the
+table `t` represents the abstract state `a`, with ghost lists `L k` (the run starts on the list of
+head `k`, in list order).  It says: `1 ≤ heads ≤ 128`, the array has `2 * (units + 1 + heads)` entries,
+`units ≤ MAX_UNITS`; the top sentinel and the heads are not free, the heads are not multi; the
+uncoalescable bit of every unit is `a.unc`; every run `[s, e)` of `a` has its MULTI flag and both
+size entries right (`get_size`, `get_left` read them), its FREE flag is `a.own s ≠ none`, its owner is
+constant, and a run owned by head `k` is a member of `L k`; and for every head `k` the next / prev
+links from the head through `L k` and back form a circular doubly-linked list (`Links`), without
+repetition, of runs owned by `k`.
+
+`abs` is a *relation* (`Abs H t a`), not a function: the abstract state has a ghost field
+(`touched`) that the table does not store, and the owner of a free run is the head whose list
+reaches it (not a field of the run).  `WF H t := ∃ a, Abs H t a`.
+
+For every operation the protocol (`Runs.Pre`) allows, the concrete method returns `.ok`, its answer
+is one the abstract specification allows, and the new table represents `Runs.apply a op`
+(`alloc_refines`, `allocFromUnit_refines`, `free_refines`, `setUnc_refines`, `clrUnc_refines`; both
+`debug` settings, i.e. no `debug_assert!` fires).  `history_refines`: every concrete history whose
+steps respect the protocol is an abstract history (`Runs.Reach`) and keeps `Abs`; hence the abstract
+theorems transfer: `concrete_history_no_overlap`, `concrete_history_conservation`.
 -/
+
+/-- The table (with `H` heads) represents the abstract state. -/
+def Abs (H : Int) (t : Tab) (a : Runs.AS) : Prop := t.heads = H ∧ ∃ L, Rel t a L
+
+/-- The table invariant. -/
+def WF (H : Int) (t : Tab) : Prop := ∃ a, Abs H t a
+
+open Mmtk.Runs in
+/-- **alloc_refines.** `alloc(n)` through head `k` on a well-formed table returns `.ok`; either it
+returns the start `s` of a free run `[s, e)` of head `k` that fits (an answer `Runs.Pre` allows) and the
+new table represents `apply a (alloc k s n e)`, or it returns `FAILURE`, the table is unchanged, and no
+run of head `k` fits. -/
+theorem alloc_refines' {H : Int} {t : Tab} {a : AS} {k n : Nat} (debug : Bool)
+    (h : Abs H t a) (hk : (k : Int) < H) (hn : 1 ≤ n) :
+    (∃ (s e : Nat) (t' : Tab), alloc debug t (hd k) (n : Int) = .ok (t', (s : Int)) ∧ Pre a (.alloc k s n e) ∧
+      Abs H t' (Runs.apply a (.alloc k s n e))) ∨
+    (alloc debug t (hd k) (n : Int) = .ok (t, FAILURE) ∧ ¬ CanAlloc a k n) := by
+  obtain ⟨hH, L, hR⟩ := h
+  rcases alloc_refines debug hR (by rw [hH]; exact hk) hn with ⟨s, e, t', L', h1, h2, h3, h4⟩ | h1
+  · exact Or.inl ⟨s, e, t', h1, h2, by rw [← hH, ← h4], L', h3⟩
+  · exact Or.inr h1
+
+open Mmtk.Runs in
+/-- **allocFromUnit_refines.** `alloc_from_unit(n, s)` on the start of a run `[s, e)`: if the run is
+free on the caller's head and fits it is taken (`Pre a (alloc k s n e)`), if it is allocated or too
+small the answer is `FAILURE` and the table is unchanged. -/
+theorem allocFromUnit_refines' {H : Int} {t : Tab} {a : AS} {k s e n : Nat} (debug : Bool)
+    (h : Abs H t a) (hr : IsRun a s e) (hn : 1 ≤ n) :
+    (Pre a (.alloc k s n e) → ∃ t', allocFromUnit debug t (hd k) (n : Int) (s : Int) = .ok (t', (s : Int)) ∧
+      Abs H t' (Runs.apply a (.alloc k s n e))) ∧
+    ((a.own s = none ∨ e < s + n) → allocFromUnit debug t (hd k) (n : Int) (s : Int) = .ok (t, FAILURE)) := by
+  obtain ⟨hH, L, hR⟩ := h
+  obtain ⟨h1, h2⟩ := allocFromUnit_refines (k := k) debug hR hr hn
+  refine ⟨fun hp => ?_, h2⟩
+  obtain ⟨t', L', g1, g2, g3⟩ := h1 hp.2.1 hp.2.2.2
+  exact ⟨t', g1, by rw [← hH, ← g3], L', g2⟩
+
+open Mmtk.Runs in
+/-- **free_refines.** `free(s, rcs)` through head `k` of an allocated run `[s, e)` (protocol
+`Runs.Pre`) returns `.ok`; the answer is the size of the freed run, or with `rcs` the size of the
+coalesced run `[l, r)` — where `l` is the start of the left neighbour iff `mergeL` (it is free and
+`s` carries no uncoalescable mark) and `r` the end of the right neighbour iff `mergeR`: the run
+coalesces exactly with those neighbours — and the new table represents `apply a (free k s e)`. -/
+theorem free_refines' {H : Int} {t : Tab} {a : AS} {k s e : Nat} (debug rcs : Bool)
+    (h : Abs H t a) (hk : (k : Int) < H) (hp : Pre a (.free k s e)) :
+    ∃ (t' : Tab) (l r : Nat), free debug t (hd k) (s : Int) rcs = .ok (t', if rcs then (r : Int) - l else (e : Int) - s) ∧
+      Abs H t' (Runs.apply a (.free k s e)) ∧
+      (if mergeL a s then IsRun a l s else l = s) ∧ (if mergeR a e then IsRun a e r else r = e) ∧
+      IsRun (Runs.apply a (.free k s e)) l r := by
+  obtain ⟨hH, L, hR⟩ := h
+  obtain ⟨t', L', l, r, h1, h2, h3, h4, h5⟩ := free_refines debug rcs hR (by rw [hH]; exact hk) hp
+  exact ⟨t', l, r, h1, ⟨by rw [← hH, ← h3], L', h2⟩, h4, h5, free_run_merged a hp.1 h4 h5⟩
+
+open Mmtk.Runs in
+/-- **setUnc_refines.** -/
+theorem setUnc_refines' {H : Int} {t : Tab} {a : AS} {u : Nat} (h : Abs H t a) (hu : u ≤ a.units) :
+    ∃ t', setUncoalescable t (u : Int) = .ok t' ∧ Abs H t' (Runs.apply a (.setUnc u)) := by
+  obtain ⟨hH, L, hR⟩ := h
+  obtain ⟨h1, h2⟩ := setUnc_refines hR hu
+  exact ⟨_, h1, by simpa using hH, L, h2⟩
+
+open Mmtk.Runs in
+/-- **clrUnc_refines.** -/
+theorem clrUnc_refines' {H : Int} {t : Tab} {a : AS} {u : Nat} (h : Abs H t a) (hu : u ≤ a.units) :
+    ∃ t', clearUncoalescable t (u : Int) = .ok t' ∧ Abs H t' (Runs.apply a (.clrUnc u)) := by
+  obtain ⟨hH, L, hR⟩ := h
+  obtain ⟨h1, h2⟩ := clrUnc_refines hR hu
+  exact ⟨_, h1, by simpa using hH, L, h2⟩
+
+/-- What the table says about a run of the abstract state it represents: `get_size` is its length,
+`get_free` is "owned by some head", and the run lies inside the list. -/
+theorem abs_reads {H : Int} {t : Tab} {a : Runs.AS} {s e : Nat} (h : Abs H t a) (hr : Runs.IsRun a s e) :
+    getSize t (s : Int) = .ok ((e : Int) - s) ∧ getFree t (s : Int) = .ok (a.own s).isSome ∧ e ≤ a.units := by
+  obtain ⟨hH, L, hR⟩ := h
+  have hlt := hR.run_lt hr
+  have ok := hR.run s e hr
+  have hpos := hR.hpos
+  have hsR : InR t (s : Int) := hR.inR_nat (by omega)
+  have hs1 : fMulti t (s : Int) = true → InR t ((s : Int) + 1) := by
+    intro hm; rw [ok.multi] at hm
+    have : s + 1 < e := by simpa using hm
+    exact hR.inR (by omega) (by omega)
+  refine ⟨?_, ?_, hlt.2⟩
+  · rw [getSize_ok hsR hs1, hR.sizeOf_run hr]
+  · rw [getFree_ok hsR, ok.free]
+
+/-! ### histories -/
+
+/-- One step of a concrete history that respects the callers' protocol: the concrete method returned
+`.ok`, and the abstract state moves by the abstract operation that the answer selects. `H` = number
+of heads. -/
+inductive CStep (debug : Bool) (H : Int) : Tab → Runs.AS → Tab → Runs.AS → Prop
+  | alloc {t a t'} (k n s e : Nat) : (k : Int) < H → alloc debug t (hd k) (n : Int) = .ok (t', (s : Int)) →
+      Runs.Pre a (.alloc k s n e) → CStep debug H t a t' (Runs.apply a (.alloc k s n e))
+  | allocFail {t a t'} (k n : Nat) : (k : Int) < H → 1 ≤ n → alloc debug t (hd k) (n : Int) = .ok (t', FAILURE) →
+      CStep debug H t a t' a
+  | allocFromUnit {t a t'} (k n s e : Nat) : allocFromUnit debug t (hd k) (n : Int) (s : Int) = .ok (t', (s : Int)) →
+      Runs.Pre a (.alloc k s n e) → CStep debug H t a t' (Runs.apply a (.alloc k s n e))
+  | allocFromUnitFail {t a t'} (k n s e : Nat) : Runs.IsRun a s e → (a.own s = none ∨ e < s + n) → 1 ≤ n →
+      allocFromUnit debug t (hd k) (n : Int) (s : Int) = .ok (t', FAILURE) → CStep debug H t a t' a
+  | free {t a t'} (k s e : Nat) (rcs : Bool) (r : Int) : (k : Int) < H → free debug t (hd k) (s : Int) rcs = .ok (t', r) →
+      Runs.Pre a (.free k s e) → CStep debug H t a t' (Runs.apply a (.free k s e))
+  | setUnc {t a t'} (u : Nat) : u ≤ a.units → setUncoalescable t (u : Int) = .ok t' →
+      CStep debug H t a t' (Runs.apply a (.setUnc u))
+  | clrUnc {t a t'} (u : Nat) : u ≤ a.units → Runs.Pre a (.clrUnc u) → clearUncoalescable t (u : Int) = .ok t' →
+      CStep debug H t a t' (Runs.apply a (.clrUnc u))
+
+/-- Concrete histories from `(t0, a0)`. -/
+inductive CReach (debug : Bool) (H : Int) (t0 : Tab) (a0 : Runs.AS) : Tab → Runs.AS → Prop
+  | init : CReach debug H t0 a0 t0 a0
+  | step {t a t' a'} : CReach debug H t0 a0 t a → CStep debug H t a t' a' → CReach debug H t0 a0 t' a'
+
+theorem ok_inj {α : Type} {x y : α} (h : (Except.ok x : M α) = .ok y) : x = y := by cases h; rfl
+
+open Mmtk.Runs in
+/-- **step_refines.** A protocol-respecting concrete step is an abstract step (or leaves the
+abstract state alone: a failed allocation), and the new table represents the new abstract state. -/
+theorem step_refines {debug : Bool} {H : Int} {t t' : Tab} {a a' : AS} (h : Abs H t a)
+    (hs : CStep debug H t a t' a') :
+    Abs H t' a' ∧ (a' = a ∨ ∃ op, Pre a op ∧ a' = Runs.apply a op) := by
+  cases hs with
+  | alloc k n s e hk hc hp =>
+    refine ⟨?_, Or.inr ⟨_, hp, rfl⟩⟩
+    rcases alloc_refines' debug h hk hp.2.2.1 with ⟨s0, e0, t0, g1, g2, g3⟩ | ⟨g1, _⟩
+    · rw [g1] at hc
+      have e1 := ok_inj hc
+      have ht : t0 = t' := congrArg Prod.fst e1
+      have hs : s0 = s := by have := congrArg Prod.snd e1; simp at this; omega
+      subst ht hs
+      have : e0 = e := run_end_unique' a g2.1 hp.1
+      subst this
+      exact g3
+    · rw [g1] at hc
+      have := congrArg Prod.snd (ok_inj hc)
+      simp [FAILURE] at this
+  | allocFail k n hk hn hc =>
+    refine ⟨?_, Or.inl rfl⟩
+    rcases alloc_refines' debug h hk hn with ⟨s0, e0, t0, g1, g2, g3⟩ | ⟨g1, _⟩
+    · rw [g1] at hc
+      have := congrArg Prod.snd (ok_inj hc)
+      simp [FAILURE] at this
+    · rw [g1] at hc
+      have ht : t = t' := congrArg Prod.fst (ok_inj hc)
+      subst ht
+      exact h
+  | allocFromUnit k n s e hc hp =>
+    refine ⟨?_, Or.inr ⟨_, hp, rfl⟩⟩
+    obtain ⟨t0, g1, g2⟩ := (allocFromUnit_refines' debug h hp.1 hp.2.2.1).1 hp
+    rw [g1] at hc
+    have ht : t0 = t' := congrArg Prod.fst (ok_inj hc)
+    subst ht
+    exact g2
+  | allocFromUnitFail k n s e hr hf hn hc =>
+    refine ⟨?_, Or.inl rfl⟩
+    have g1 := (allocFromUnit_refines' (k := k) debug h hr hn).2 hf
+    rw [g1] at hc
+    have ht : t = t' := congrArg Prod.fst (ok_inj hc)
+    subst ht
+    exact h
+  | free k s e rcs r hk hc hp =>
+    refine ⟨?_, Or.inr ⟨_, hp, rfl⟩⟩
+    obtain ⟨t0, l, r0, g1, g2, _⟩ := free_refines' debug rcs h hk hp
+    rw [g1] at hc
+    have ht : t0 = t' := congrArg Prod.fst (ok_inj hc)
+    subst ht
+    exact g2
+  | setUnc u hu hc =>
+    refine ⟨?_, Or.inr ⟨.setUnc u, trivial, rfl⟩⟩
+    obtain ⟨t0, g1, g2⟩ := setUnc_refines' h hu
+    rw [g1] at hc
+    have ht : t0 = t' := ok_inj hc
+    subst ht
+    exact g2
+  | clrUnc u hu hp hc =>
+    refine ⟨?_, Or.inr ⟨.clrUnc u, hp, rfl⟩⟩
+    obtain ⟨t0, g1, g2⟩ := clrUnc_refines' h hu
+    rw [g1] at hc
+    have ht : t0 = t' := ok_inj hc
+    subst ht
+    exact g2
+
+open Mmtk.Runs in
+/-- **history_refines.** Every concrete history (any interleaving of `alloc`, `alloc_from_unit`,
+`free`, `set_uncoalescable`, `clear_uncoalescable` on any heads, each respecting `Runs.Pre`) is a
+history of the abstract specification, and the final table represents the final abstract state. -/
+theorem history_refines {debug : Bool} {H : Int} {t0 t : Tab} {a0 a : AS} (h0 : Abs H t0 a0)
+    (hr : CReach debug H t0 a0 t a) : Reach a0 a ∧ Abs H t a := by
+  induction hr with
+  | init => exact ⟨.init, h0⟩
+  | step _ hs ih =>
+    obtain ⟨g1, g2⟩ := step_refines ih.2 hs
+    refine ⟨?_, g1⟩
+    rcases g2 with rfl | ⟨op, hp, rfl⟩
+    · exact ih.1
+    · exact .step op ih.1 hp
+
+open Mmtk.Runs in
+/-- **concrete_history_no_overlap.** After any protocol-respecting concrete history from a fresh
+list, the runs recorded in the table — `get_size(s) = e - s`, `get_free(s) = (own s ≠ none)` for every
+run `[s, e)` — are pairwise disjoint and inside the list, and the owner (allocated / free on head `k`)
+is the same for all units of a run; in particular allocated runs never overlap and never exceed
+the list. -/
+theorem concrete_history_no_overlap {debug : Bool} {H : Int} {t0 t : Tab} {a0 a : AS} (h0 : Abs H t0 a0)
+    (hf : Fresh a0) (hr : CReach debug H t0 a0 t a) {s e s' e' : Nat} (h : IsRun a s e) (h' : IsRun a s' e')
+    (hlt : s < s') :
+    e ≤ s' ∧ e' ≤ a.units ∧ a.units = a0.units ∧
+    getSize t (s : Int) = .ok ((e : Int) - s) ∧ getSize t (s' : Int) = .ok ((e' : Int) - s') ∧
+    getFree t (s : Int) = .ok (a.own s).isSome ∧ getFree t (s' : Int) = .ok (a.own s').isSome ∧
+    (∀ u, s ≤ u → u < e → a.own u = a.own s) := by
+  obtain ⟨hreach, habs⟩ := history_refines h0 hr
+  obtain ⟨d1, _, d3⟩ := runs_disjoint a h h' hlt
+  have r1 := abs_reads habs h
+  have r2 := abs_reads habs h'
+  have inv := inv_reach hf hreach
+  refine ⟨d1, d3, inv.units, r1.1, r2.1, r1.2.1, r2.2.1, ?_⟩
+  obtain ⟨_, L, hR⟩ := habs
+  exact (hR.run s e h).own
+
+open Mmtk.Runs in
+/-- **concrete_history_conservation.** After any protocol-respecting concrete history from a fresh
+list, once every unit is free again every boundary still in the table carries an uncoalescable
+mark or is a pristine initial grain boundary, and no pristine boundary was lost; with a single
+initial run and no marks the table again holds the one free run of all units
+(`get_size(0) = units`, `get_free(0)`): nothing handed out is lost. -/
+theorem concrete_history_conservation {debug : Bool} {H : Int} {t0 t : Tab} {a0 a : AS} (h0 : Abs H t0 a0)
+    (hf : Fresh a0) (hr : CReach debug H t0 a0 t a) (hall : ∀ u, u < a.units → a.own u ≠ none) :
+    ((∀ b, 0 < b → b < a.units → a.cut b = true → a.unc b = true ∨ (a.touched b = false ∧ a0.cut b = true)) ∧
+     (∀ b, a.touched b = false → a0.cut b = true → a.cut b = true)) ∧
+    ((∀ b, 0 < b → b < a0.units → a0.cut b = false) → 0 < a0.units → (∀ b, a.unc b = false) →
+      getSize t 0 = .ok (a0.units : Int) ∧ getFree t 0 = .ok true) := by
+  obtain ⟨hreach, habs⟩ := history_refines h0 hr
+  refine ⟨free_all_coalesces hf hreach hall, fun hsingle hpos hnomark => ?_⟩
+  have hrun := free_all_restores_single_run hf hreach hsingle hpos hall hnomark
+  have hu := (inv_reach hf hreach).units
+  obtain ⟨r1, r2, _⟩ := abs_reads habs hrun
+  have hown : (a.own 0).isSome = true := by
+    have := hall 0 (by omega)
+    cases ho : a.own 0 with
+    | none => exact absurd ho this
+    | some j => rfl
+  rw [hown] at r2
+  refine ⟨?_, r2⟩
+  have : ((a.units : Nat) : Int) - ((0 : Nat) : Int) = (a0.units : Int) := by rw [hu]; omega
+  rw [← this]; exact r1
 
 /-- Witness that the protocol hypothesis of `Runs.Pre (.free …)` is needed: coalescing into a run
 that sits on another head's list (no uncoalescable mark in between) puts one run on two lists,
